@@ -586,6 +586,81 @@ def cross_registry_job(arg):
     return rep
 
 
+def fork_keep_job(arg, prop="C17"):
+    """Worker processes forked from a process whose DBFS store has already stored a blob keep different results at the same
+    time (their uploads are lined up by a barrier in the fake dbutils): afterwards every path serves its own value."""
+    cache, tags = arg[:2]
+    commit_type = arg[2] if len(arg) > 2 else None
+    import multiprocessing
+
+    import dds
+    from vp.fakedbutils import FakeDbutils
+
+    rep = core.Report(prop)
+    rep.evaluations = 1
+    dds.accept_module("checks")
+    case = {"fork_keep": True, "cache": cache, "tags": tags, "commit_type": commit_type}
+    with core.Scratch("vp_c17k_") as root:
+        _DBFS_ROOT[0] = root
+        dbu = FakeDbutils(root)
+        dds.set_store("dbfs", internal_dir="dbfs:/internal", data_dir="dbfs:/data", dbutils=dbu, cache_objects=cache, commit_type=commit_type)
+        dds.keep("/c17k/warmup", produce2, tags[0])
+        ctx = multiprocessing.get_context("fork")
+        barrier = ctx.Barrier(len(tags))
+        q = ctx.Queue()
+
+        def hook(src, dst):
+            if src.startswith("file:") and "/blobs/" in dst and not dst.endswith(".meta"):
+                try:
+                    barrier.wait(3)
+                except Exception:
+                    pass
+
+        def worker(t):
+            dbu.fs.before_cp_hook = hook
+            try:
+                v = dds.keep("/c17k/%s" % t, produce, t)
+                q.put((t, "ok", pickle.dumps(v)))
+            except BaseException as e:
+                q.put((t, "exc", "%s: %s" % (type(e).__name__, str(e)[:150])))
+
+        procs = [ctx.Process(target=worker, args=(t,)) for t in tags]
+        for pr in procs:
+            pr.start()
+        res = {}
+        for _ in tags:
+            try:
+                t, st, payload = q.get(timeout=60)
+                res[t] = (st, payload)
+            except Exception:
+                break
+        for pr in procs:
+            pr.join(10)
+            if pr.is_alive():
+                pr.terminate()
+        # a new store object reads everything back
+        dds.set_store("dbfs", internal_dir="dbfs:/internal", data_dir="dbfs:/data", dbutils=FakeDbutils(root), commit_type=commit_type)
+        loads = {}
+        for t in tags:
+            try:
+                loads[t] = ("ok", dds.load("/c17k/%s" % t))
+            except BaseException as e:
+                loads[t] = ("exc", "%s: %s" % (type(e).__name__, str(e)[:120]))
+    for t in tags:
+        rep.count("reads_checked_forked_workers")
+        if t not in res:
+            rep.inconclusive.append("forked worker for %s gave no answer" % t)
+            continue
+        st, payload = res[t]
+        if st != "ok" or not SM.values_equal(pickle.loads(payload), value(t)):
+            rep.violate("dbfs (cache=%r): forked workers keeping different results at the same time: keep of /c17k/%s gave %s" % (cache, t, payload if st != "ok" else repr(pickle.loads(payload))[:80]), case, mechanism="concurrent-transfer-mixed-up")
+        elif loads[t][0] != "ok" or not SM.values_equal(loads[t][1], value(t)):
+            rep.violate("dbfs (cache=%r): forked workers keeping different results at the same time: afterwards /c17k/%s loads as %s, its keep returned %s" % (cache, t, repr(loads[t][1])[:80], repr(value(t))[:60]), case,
+                        mechanism="concurrent-transfer-mixed-up")
+    rep.nontriv(("c17forkkeep", repr(cache), repr(tags)))
+    return rep
+
+
 class UserT(object):
     """a small table; its codec stores it as a directory with one file per column."""
 
@@ -760,7 +835,7 @@ def run(tier, seed):
                 jobs.append((kind, sc, tags))
     fjobs = [(None, ["str_ascii", "str_nonascii"]), (None, ["str_ascii", "nested", "bytes_plain"]), (None, ["frame0", "obj"])]
     ljobs = [(kind, refs, cache) for kind in ("local", "dbfs") for refs in (("acme.string", "zip.bytes"), ("arch.pickle", "fast.pandas"), ("my.codec.string", "bytes")) for cache in (None, 2)]
-    results = core.fork_map(lambda j: {"f": fork_job, "j": job, "l": lookalike_job, "x": cross_registry_job, "d": dir_codec_job}[j[0]](j[1]), [("j", j) for j in jobs] + [("f", j) for j in fjobs] + [("l", j) for j in ljobs] + [("x", "dbfs"), ("x", "local"), ("d", None), ("d", 2)], timeout=900)
+    results = core.fork_map(lambda j: {"f": fork_job, "j": job, "l": lookalike_job, "x": cross_registry_job, "d": dir_codec_job, "k": fork_keep_job}[j[0]](j[1]), [("j", j) for j in jobs] + [("f", j) for j in fjobs] + [("l", j) for j in ljobs] + [("x", "dbfs"), ("x", "local"), ("d", None), ("d", 2), ("k", (None, ["str_ascii", "str_nonascii"])), ("k", (None, ["nested", "bytes_plain", "obj"]))], timeout=900)
     for r in results[len(jobs):]:
         if isinstance(r, core.JobFailed):
             rep.inconclusive.append("fork job: %r" % (r,))
@@ -785,6 +860,9 @@ def replay(payload):
         return rep
     if c.get("lookalike"):
         rep.merge(lookalike_job((c["kind"], tuple(c["refs"]), c["cache"])))
+        return rep
+    if c.get("fork_keep"):
+        rep.merge(fork_keep_job((c["cache"], c["tags"], c.get("commit_type"))))
         return rep
     if c.get("dir_codec"):
         rep.merge(dir_codec_job(c["cache"]))
